@@ -41,6 +41,28 @@ func (g *Gen) akaWire() []byte {
 			attrs = append(attrs, append([]byte{134, byte((4 + n) / 4), 0, 0}, g.bytes(n)...))
 		}
 	}
+	if g.chance(0.3) { // attributes of types the library keeps without interpreting them
+		for n := 1 + g.r.Intn(3); n > 0; n-- {
+			t := g.pick(4, 5, 6, 7, 10, 12, 13, 14, 129, 130, 132, 133, 135, 136, 200)
+			words := 1 + g.r.Intn(4)
+			attrs = append(attrs, append([]byte{byte(t), byte(words)}, g.keyBytesRandom(words*4-2)...))
+		}
+		g.r.Shuffle(len(attrs), func(i, j int) { attrs[i], attrs[j] = attrs[j], attrs[i] })
+	}
+	if g.chance(0.04) { // a large packet: many attributes incl. types without a reader, up to 255 words each (past 4096 and 8192 octets in total)
+		total := 0
+		for _, a := range attrs {
+			total += len(a)
+		}
+		for n := 5 + g.r.Intn(60); n > 0 && total < 60000; n-- {
+			t := g.pick(4, 5, 6, 7, 10, 12, 13, 14, 129, 130, 132, 133, 135, 136, 200)
+			words := 1 + g.r.Intn(255)
+			total += words * 4
+			a := append([]byte{byte(t), byte(words)}, g.keyBytesRandom(words*4-2)...)
+			attrs = append(attrs, a)
+		}
+		g.r.Shuffle(len(attrs), func(i, j int) { attrs[i], attrs[j] = attrs[j], attrs[i] })
+	}
 	body := []byte{50, byte(g.pick(1, 2, 4, 5, 12, 13, 14)), 0, 0}
 	for _, a := range attrs {
 		body = append(body, a...)
